@@ -434,14 +434,7 @@ func (s *vScenario) project() (*vState, error) {
 	for _, p := range probes {
 		st.Cache[p.name] = s.cacheContent(p.conv)
 	}
-	for _, n := range s.convNames {
-		if _, ok := st.ToConv[n]; !ok {
-			st.ToConv[n] = []int{}
-		}
-		if _, ok := st.Cache[n]; !ok {
-			st.Cache[n] = []vEntry{}
-		}
-	}
+	// (no default entries: a converter whose executable was removed has neither a queue nor a cache)
 	// jobs: snapshot and result as seen by the hooks
 	for _, k := range vKinds {
 		st.Jobs[k] = s.projectJob(k)
